@@ -15,6 +15,15 @@ Reads the non-test part of
     with `line.push('\n')` before the write; ABody = the same without the push; ANl = write_all(b"\n");
     AStream = serde_json::to_writer(writer, ..); AFlush = flush(); AOther = anything else touching the
     writer.  Obligation `gen_append_shape_ok`: the shape is [ALineNl; AFlush] - ONE write of frame+LF.
+  * crates/rip-log/src/lib.rs, the OPEN path and the READ paths (builder log02d): every file-system effect
+    (create_dir_all, OpenOptions chains by their flags, File::open / create, set_len / truncate, remove / rename /
+    copy / fs::write, write / write_all / write! / flush / sync, any other fs:: call, libc, Command, unsafe) found in
+    the call closure - within this file: free functions, `Type::f(`, `Self::f(`, `self.f(` - of `EventLog::new`
+    (`gen_open_effects`) and of every other method of `impl EventLog` except `append` (`gen_read_effects`), in
+    source order, as `list oeffect` (Model/LogFile.v).  Obligations: the open path is create_dir_all + ONE
+    create+append open and nothing that can cut, create or write (`gen_open_effects_ok`); the readers only open
+    for reading (`gen_read_effects_ok`).  A helper called from `new` that does `set_len` (seed C02-10) shows up
+    as [..; EOpenWrite; ESetLen].
 Emits coq/Gen/LogOpen.v : the facts found as booleans + `gen_log_opened_append_only` (their conjunction)
 and the obligation `gen_log_open_ok`.  When a construct is not found the corresponding fact is `false`
 (never guess), so the obligation fails.
@@ -207,6 +216,141 @@ def append_shape(repo):
     return shape, notes
 
 
+# ---------- file-system effects in the call closure of the open path and of the read paths ----------
+# (pattern, effect) in the order they are tried at one source position; first match wins
+EFFECT_PATTERNS = [
+    (r"fs::create_dir_all\s*\(", "EMkdirParents"),
+    (r"File::open\s*\(", "EOpenRead"),
+    (r"File::create(?:_new)?\s*\(", "ECreateFile"),
+    (r"File::options\s*\(", "EOpenWrite"),
+    (r"\.\s*set_len\s*\(", "ESetLen"),
+    (r"\.\s*truncate\s*\(", "ESetLen"),
+    (r"\b(?:fs::)?(?:remove_file|remove_dir_all|remove_dir|rename|hard_link|copy|soft_link|symlink)\s*\(", "ERemoveOrRename"),
+    (r"fs::write\s*\(", "ERemoveOrRename"),
+    (r"\.\s*(?:write_all|write|write_vectored|write_fmt|write_at|write_all_at|flush|sync_all|sync_data)\s*\(", "EWrite"),
+    (r"\b(?:write|writeln)!\s*\(", "EWrite"),
+    (r"\bio::copy\s*\(", "EWrite"),
+    (r"\bfs::(?!create_dir_all\b|read\b|read_to_string\b|metadata\b|read_dir\b|symlink_metadata\b|canonicalize\b|File\b|OpenOptions\b|self\b)\w+\s*\(", "EOther"),
+    (r"\blibc::\w+\s*\(", "EOther"),
+    (r"\bCommand::new\s*\(", "EOther"),
+    (r"\bunsafe\b", "EOther"),
+]
+
+
+def functions_of(src):
+    """{qualified name: body} for every `fn` of the (comment- and test-free) source: `Type::name` inside
+    `impl Type {` / `impl Trait for Type {`, bare `name` at top level"""
+    out = {}
+    impls = []
+    for m in re.finditer(r"\bimpl\b(?:\s*<[^>]*>)?\s+(?:[\w:]+\s+for\s+)?(\w+)[^{;]*\{", src):
+        body = brace_body(src, m.end())
+        impls.append((m.end(), m.end() + len(body), m.group(1)))
+    for fm in re.finditer(r"\bfn\s+(\w+)\s*(?:<[^>]*>)?\s*\(", src):
+        j = src.find("{", fm.end())
+        semi = src.find(";", fm.end())
+        if j < 0 or (0 <= semi < j):
+            continue
+        owner = [t for (a, b, t) in impls if a <= fm.start() < b]
+        name = (owner[-1] + "::" if owner else "") + fm.group(1)
+        out.setdefault(name, "")
+        out[name] += "\n" + brace_body(src, j + 1)
+    return out
+
+
+def open_options_effect(flags):
+    names = {n: a.strip() for n, a in flags}
+    if names.get("open") is None:
+        return "EOther"
+    on = {n for n, a in names.items() if n != "open" and a == "true"}
+    off = {n for n, a in names.items() if n != "open" and a == "false"}
+    if set(names) - {"open"} != on | off:
+        return "EOther"  # a flag whose value is not a literal
+    if on == {"create", "append"}:
+        return "EOpenCreateAppend"
+    if on == {"read"}:
+        return "EOpenRead"
+    return "EOpenWrite"
+
+
+def effects_in(body):
+    """file-system effects of one function body, in source order"""
+    found = []
+    chains = []
+    for m in re.finditer(r"OpenOptions::new\(\)((?:\s*\.\s*\w+\([^()]*\))*)", body):
+        found.append((m.start(), open_options_effect(re.findall(r"\.\s*(\w+)\(([^()]*)\)", m.group(1)))))
+        chains.append((m.start(), m.end()))
+    for i in range(len(body)):
+        if any(a <= i < b for a, b in chains):
+            continue  # `.write(true)` of an OpenOptions chain is a flag, not a write
+        for pat, eff in EFFECT_PATTERNS:
+            m = re.compile(pat).match(body, i)
+            if m:
+                found.append((i, eff))
+                break
+    found.sort()
+    return [e for _, e in found]
+
+
+def closure_effects(fns, roots, owner):
+    """effects of the roots and of every function of this file they can reach (calls by name: `name(` for a
+    top-level fn, `Type::name(`, `Self::name(` / `self.name(` for methods of `owner`), depth first in source order"""
+    seen, order = set(), []
+
+    def visit(q):
+        if q in seen or q not in fns:
+            return
+        seen.add(q)
+        order.append(q)
+        body = fns[q]
+        cur_owner = q.split("::")[0] if "::" in q else owner
+        calls = []
+        for m in re.finditer(r"(?<![\w:.])(\w+)\s*\(", body):
+            if m.group(1) in fns:
+                calls.append((m.start(), m.group(1)))
+        for m in re.finditer(r"\b(\w+)::(\w+)\s*\(", body):
+            t = cur_owner if m.group(1) == "Self" else m.group(1)
+            if f"{t}::{m.group(2)}" in fns:
+                calls.append((m.start(), f"{t}::{m.group(2)}"))
+        for m in re.finditer(r"\bself\s*\.\s*(\w+)\s*\(", body):
+            if f"{cur_owner}::{m.group(1)}" in fns:
+                calls.append((m.start(), f"{cur_owner}::{m.group(1)}"))
+        for _, c in sorted(calls):
+            visit(c)
+
+    for r in roots:
+        visit(r)
+    effects = []
+    for q in order:
+        effects += effects_in(fns[q])
+    return effects, order
+
+
+READERS = ["replay", "replay_validated", "replay_stream", "replay_session", "last_seq"]
+
+
+def open_read_effects(repo):
+    p = os.path.join(repo, "crates", "rip-log", "src", "lib.rs")
+    if not os.path.exists(p):
+        return None, None, ["rip-log/src/lib.rs not found"]
+    src = strip_tests(strip_comments(open(p).read()))
+    src = re.sub(r"#\[cfg\(rip_verif\)\]\s*rip_kernel::verif::point\([^)]*\)\s*;", "", src)
+    fns = functions_of(src)
+    notes = []
+    if "EventLog::new" not in fns:
+        return None, None, ["fn new of impl EventLog not found"]
+    oe, oorder = closure_effects(fns, ["EventLog::new"], "EventLog")
+    notes.append("EventLog::new reaches: " + ", ".join(oorder) + " ; effects: " + " ".join(oe))
+    # every method of impl EventLog other than the constructor and the writer is a reader
+    methods = [q for q in fns if q.startswith("EventLog::") and q not in ("EventLog::new", "EventLog::append")]
+    missing = [r for r in READERS if f"EventLog::{r}" not in fns]
+    if missing:
+        notes.append("readers not found: " + ", ".join(missing))
+        return oe, None, notes
+    re_, rorder = closure_effects(fns, methods, "EventLog")
+    notes.append("EventLog readers (" + ", ".join(m.split('::')[1] for m in methods) + ") reach: " + ", ".join(rorder) + " ; effects: " + " ".join(re_))
+    return oe, re_, notes
+
+
 def coq_bool(b):
     return "true" if b else "false"
 
@@ -222,7 +366,7 @@ def main():
     notes += snotes
     lines = ["(* GENERATED by tools/gen/log_open.py from crates/rip-log/src/lib.rs and crates/ripd/src - do not edit.",
              "   How the truth log is opened and who names its path; the writer calls of EventLog::append (C02, T1). *)",
-             "From RipV Require Import Base.Prelude Model.Frames Model.Log Model.LogBytes.", ""]
+             "From RipV Require Import Base.Prelude Model.Frames Model.Log Model.LogBytes Model.LogFile.", ""]
     for n in names:
         lines.append(f"Definition gen_log_{n} : bool := {coq_bool(facts[n])}.")
     lines.append("")
@@ -235,6 +379,19 @@ def main():
     lines.append("Definition gen_append_shape : list ashape := [" + "; ".join(shape if shape is not None else ["AOther"]) + "].")
     lines.append("")
     lines.append("Lemma gen_append_shape_ok : shape_single_write gen_append_shape = true.")
+    lines.append("Proof. vm_compute. reflexivity. Qed.")
+    oe, re_, enotes = open_read_effects(a.repo)
+    notes += enotes
+    lines.append("")
+    lines.append("(* file-system effects in the call closure of EventLog::new / of the readers of impl EventLog, in source")
+    lines.append("   order (EOther alone: not found) *)")
+    lines.append("Definition gen_open_effects : list oeffect := [" + "; ".join(oe if oe is not None else ["EOther"]) + "].")
+    lines.append("Definition gen_read_effects : list oeffect := [" + "; ".join(re_ if re_ is not None else ["EOther"]) + "].")
+    lines.append("")
+    lines.append("Lemma gen_open_effects_ok : open_effects_ok gen_open_effects = true.")
+    lines.append("Proof. vm_compute. reflexivity. Qed.")
+    lines.append("")
+    lines.append("Lemma gen_read_effects_ok : read_effects_ok gen_read_effects = true.")
     lines.append("Proof. vm_compute. reflexivity. Qed.")
     os.makedirs(a.out, exist_ok=True)
     open(os.path.join(a.out, "LogOpen.v"), "w").write("\n".join(lines) + "\n")
